@@ -106,4 +106,4 @@ while queue:
         print("batch", k, "tests fail", missing[:5], "-> bisecting", applied, flush=True)
         queue.insert(0, applied[h:])
         queue.insert(0, applied[:h])
-        size = max(1, min(size, h))
+        pass  # later groups keep the full batch size
